@@ -24,7 +24,10 @@ RULE = ('exhaustive: 7 templates (chain of 3, diamond, range sum with a '
         'with ranges, histories of 30-120 steps incl. hostile steps '
         '(evaluating a cell whose formula currently raises, then repairing '
         'the input; setting Excel-type objects; setting a cell '
-        'that does not exist yet; setting through a defined name).  '
+        'that does not exist yet; setting through a defined name or an XLCell '
+        'address); the model under test is the compiled one, or the one '
+        'restored from its JSON file, deep-copied or extracted with all cells '
+        'and names in focus.  '
         'non-trivial = history with an evaluate(c) after a set that changes '
         "c's reference value, c having been evaluated before that set (a "
         'staleness opportunity); distinct by (template, history)')
@@ -36,7 +39,7 @@ ASSUMPTIONS = [
 ]
 FLOORS = {'steps': 5000, 'staleness_opportunities': 200,
           'fresh_model_comparisons': 500, 'name_sets': 10,
-          'hostile_steps': 20}
+          'hostile_steps': 20, 'derived_models': 30}
 ANCHOR_FUNCS = {
     'xlcalculator/evaluator.py': ['Evaluator.evaluate',
                                   'Evaluator.set_cell_value',
@@ -138,6 +141,15 @@ COMPUTED = ComputedLog()
 
 def more_templates():
     one = ('lit', 1, '1')
+    two = ('lit', 2, '2')
+    # the same formula TEXT on two sheets (unqualified references mean the
+    # sheet of the cell that holds the formula)
+    yield 'same-text-two-sheets', {
+        ('Sheet1', 1, 1): 1, ('Data', 1, 1): 10,
+        ('Sheet1', 2, 1): F(('bin', '*', ('ref', None, 1, 1, False, False),
+                             two)),
+        ('Data', 2, 1): F(('bin', '*', ('ref', None, 1, 1, False, False),
+                           two))}, [('Sheet1', 1, 1), ('Data', 1, 1)], [3]
     # an input that does not exist when the model is compiled
     yield 'ghost-input', {
         K('A1'): 1, K('B1'): F(('bin', '+', r('A1'), r('G9'))),
@@ -166,12 +178,14 @@ def more_templates():
 class History:
     """runs one history against the subject, the reference and fresh models"""
 
-    def __init__(self, ctx, label, cells, names=None, use_xlsx=False):
+    def __init__(self, ctx, label, cells, names=None, use_xlsx=False,
+                 provenance='compiled'):
         self.ctx = ctx
         self.label = label
         self.wb = ref.Workbook(cells, names or {})
         self.use_xlsx = use_xlsx or bool(names)
-        self.model = self.compile(self.wb)
+        self.provenance = provenance
+        self.model = self.derive(self.compile(self.wb), provenance)
         from xlcalculator import Evaluator
         self.ev = Evaluator(self.model)
         self.log = []
@@ -190,6 +204,15 @@ class History:
         first = sorted({k[0] for k in wb.cells})[0]
         return build.model_from_dict(wb, default_sheet=first)
 
+    def derive(self, model, provenance):
+        """'a model' of the statement is any Model the public API hands out:
+        compiled, restored from its JSON file, deep-copied, or extracted with
+        everything in focus (C12/C13 say those are equivalent models)"""
+        if provenance != 'compiled':
+            self.ctx.event('derived_models')
+        return build.derive(model, provenance, os.path.join(
+            bootstrap.VERIF, 'out', 'c04', f's{self.ctx.shard}.json'))
+
     def ref_value(self, key):
         try:
             return ('value', ref.to_norm(self.wb.value(key)))
@@ -200,16 +223,22 @@ class History:
 
     def fail(self, what, monitor):
         self.failed = True
-        self.ctx.fail(f'[{self.label}] after {self.log[-6:]}: {what}',
-                      {'template': self.label,
+        prov = '' if self.provenance == 'compiled' else \
+            f' ({self.provenance} model)'
+        self.ctx.fail(f'[{self.label}]{prov} after {self.log[-6:]}: {what}',
+                      {'template': self.label, 'model': self.provenance,
                        'initial_cells': build.dict_of(
                            ref.Workbook(self.initial)) if hasattr(
                                self, 'initial') else None,
                        'history': self.log, 'problem': what},
                       monitor=monitor, group=f'{monitor}:{self.label[:12]}')
 
-    def do_set(self, key, value, via_name=None, lib_value=None):
+    def do_set(self, key, value, via_name=None, lib_value=None,
+               via_xlcell=False):
         a = via_name or build.addr(key)
+        if via_xlcell:
+            from xlcalculator import xltypes
+            a = xltypes.XLCell(build.addr(key), None)
         self.log.append(f'set({a}, {value!r})' if lib_value is None
                         else f'set({a}, {lib_value!r})')
         self.ctx.event('steps')
@@ -319,7 +348,9 @@ def run_exhaustive(ctx, maxlen):
                 if not any(o[0] == 'evaluate' for o in hist):
                     continue
                 total += 1
-                H = History(ctx, label, dict(cells))
+                prov = {3: 'extracted', 6: 'deepcopy', 9: 'json'}.get(
+                    total % 10, 'compiled')
+                H = History(ctx, label, dict(cells), provenance=prov)
                 H.initial = dict(cells)
                 for i, (op, k, v) in enumerate(hist):
                     if H.failed:
@@ -366,8 +397,11 @@ def run_sampled(ctx, count):
         ghost_user = (sheets[0], 6, 2)
         cells[ghost_user] = ('f', ('bin', '+', gen.R(ghost, sheets[0]),
                                    ('lit', 1, '1')))
+        prov = rng.choice(['compiled', 'compiled', 'extracted', 'json',
+                           'deepcopy'])
         try:
-            H = History(ctx, f'random-{ctx.shard}-{hi}', cells, names)
+            H = History(ctx, f'random-{ctx.shard}-{hi}', cells, names,
+                        provenance=prov)
         except Exception as e:  # noqa
             ctx.fail(f'building the model raised {e!r}',
                      {'cells': build.dict_of(ref.Workbook(cells))},
@@ -397,7 +431,12 @@ def run_sampled(ctx, count):
                 else:
                     H.do_set(k, v)
             elif x < 0.35:
-                H.do_set(ghost, rng.choice([4, 5, 6]))
+                H.do_set(ghost, rng.choice([4, 5, 6]),
+                         via_xlcell=rng.random() < 0.3)
+                ctx.event('hostile_steps')
+            elif x < 0.38:
+                H.do_set(rng.choice(m.inputs), rng.choice([0, 1, 2, 3, 7]),
+                         via_xlcell=True)
                 ctx.event('hostile_steps')
             elif x < 0.85:
                 k = rng.choice(all_keys)
